@@ -55,6 +55,10 @@ def _worker_chunk(prop, seed, indices, minimise):
                 res.append({"run": r, "run_seed": run_seed, "harness_error": traceback.format_exc()})
                 continue
             packed = out.pack()
+            if os.environ.get("VERIF_DUMP_LOG") and packed.get("log_lines") is not None:
+                with open(os.path.join(os.environ["VERIF_DUMP_LOG"], "%s-run%d-pid%d.log" % (prop, r, os.getpid())), "w") as f:
+                    f.write("\n".join(packed["log_lines"]))
+            packed["log_lines"] = None
             packed["run"] = r
             packed["run_seed"] = run_seed
             unknown = []
